@@ -1006,6 +1006,7 @@ pub mod glue {
         }
         // (outside the const-generic branches: a witness in the dead branch would come back UNSATISFIABLE)
         witness!(w.fault.map_or(false, |f| f.off > 0 && s.len() > f.off + f.avail), "7|fault_behind_trimmed_data");
+        witness!(w.fault.is_none() && w.ether_payload_lim == Lim::MacsecSl && w.n_exts >= 2, "7|ok_payload_cut_by_short_len_behind_two_exts");
         if LAX {
             let p = LaxPacketHeaders::from_ether_type(EtherType(start), s);
             assert!(p.stop_err.is_some() == w.fault.is_some(), "C07: stop error does not match the reference fault");
@@ -1013,12 +1014,38 @@ pub mod glue {
                 check_packet_error(e, f);
             }
             assert!(p.link_exts.len() == w.n_exts);
+            if w.fault.is_none() {
+                // C05 / C04 for the struct family, link-extension part: the remaining payload is the reference's
+                // innermost ether payload, with an honest length source
+                match (&p.payload, &w.ether_payload) {
+                    (LaxPayloadSlice::Ether(e), Some((et, o, l))) => {
+                        assert!(e.ether_type.0 == *et, "C05: payload ether type");
+                        assert!(off(s, e.payload) == *o && e.payload.len() == *l, "C05: payload range of the struct decoder");
+                        assert!(e.len_source == len_source_of(w.ether_payload_lim), "C05: length source of the remaining payload");
+                    }
+                    (LaxPayloadSlice::MacsecModified { payload, .. }, None) => {
+                        assert!(crate::tight::inside(s, payload));
+                    }
+                    _ => assert!(false, "C05: payload kind of the struct decoder"),
+                }
+            }
             core::mem::forget(p);
         } else {
             match PacketHeaders::from_ether_type(EtherType(start), s) {
                 Ok(p) => {
                     assert!(w.fault.is_none(), "C03: accepted although the reference rejects");
                     assert!(p.link_exts.len() == w.n_exts);
+                    match (&p.payload, &w.ether_payload) {
+                        (PayloadSlice::Ether(e), Some((et, o, l))) => {
+                            assert!(e.ether_type.0 == *et, "C04: payload ether type");
+                            assert!(off(s, e.payload) == *o && e.payload.len() == *l, "C04: payload range of the struct decoder");
+                            assert!(e.len_source == len_source_of(w.ether_payload_lim), "C04: length source of the remaining payload");
+                        }
+                        (PayloadSlice::MacsecMod(m), None) => {
+                            assert!(crate::tight::inside(s, m));
+                        }
+                        _ => assert!(false, "C04: payload kind of the struct decoder"),
+                    }
                     core::mem::forget(p);
                 }
                 Err(e) => {
